@@ -11,6 +11,8 @@ extern "C" {
 }
 typedef long long int fptr;
 extern "C" {
+void print_options(const superlu_options_t *options);      // SRC/util.c, not in a public header
+void print_ilu_options(const superlu_options_t *options);
 void c_fortran_sgssv_(int *iopt, int *n, int_t *nnz, int *nrhs, float *values, int_t *rowind, int_t *colptr, float *b, int *ldb, fptr *f, int_t *info);
 void c_fortran_dgssv_(int *iopt, int *n, int_t *nnz, int *nrhs, double *values, int_t *rowind, int_t *colptr, double *b, int *ldb, fptr *f, int_t *info);
 void c_fortran_cgssv_(int *iopt, int *n, int_t *nnz, int *nrhs, singlecomplex *values, int_t *rowind, int_t *colptr, singlecomplex *b, int *ldb, fptr *f, int_t *info);
@@ -75,6 +77,15 @@ template <> struct ScalarOps<doublecomplex> {
         SLU_FWD(sp_gemv, sp_##p##gemv)                                               \
         SLU_FWD(sp_trsv, sp_##p##trsv)                                               \
         SLU_FWD(bridge, c_fortran_##p##gssv_)                                        \
+        SLU_FWD(CompRow_to_CompCol, p##CompRow_to_CompCol)                           \
+        SLU_FWD(Copy_Dense_Matrix, p##Copy_Dense_Matrix)                             \
+        SLU_FWD(GenXtrue, p##GenXtrue)                                               \
+        SLU_FWD(FillRHS, p##FillRHS)                                                 \
+        SLU_FWD(inf_norm_error, p##inf_norm_error)                                   \
+        SLU_FWD(sp_gemm, sp_##p##gemm)                                               \
+        SLU_FWD(Print_CompCol_Matrix, p##Print_CompCol_Matrix)                       \
+        SLU_FWD(Print_SuperNode_Matrix, p##Print_SuperNode_Matrix)                   \
+        SLU_FWD(Print_Dense_Matrix, p##Print_Dense_Matrix)                           \
     };
 
 extern "C" {
